@@ -152,7 +152,9 @@ def gen_const(rng):
 
 
 def gen_user(rng):
-    k = rng.choice(['const', 'const', 'raise', 'data', 'data_eq', 'name_eq', 'depth', 'parent_name', 'eq_or_raise'])
+    k = rng.choice(['const', 'const', 'raise', 'data', 'data_eq', 'name_eq', 'depth', 'parent_name', 'eq_or_raise', 'raise_truth'])
+    if k == 'raise_truth':
+        return ('user', 'raise_truth', rng.randint(1, 3))
     if k == 'const':
         return ('user', 'const', rng.choice([1, 0, '', 'x', [0], [], None, True, False, 0.0, 1.5, {}]))
     if k == 'raise':
